@@ -388,3 +388,26 @@ Definition init_st (nranks : nat) (orc : list resp) : st :=
 (* the whole life of the communicator after construction: the main program, then ~comm()'s barrier *)
 Definition run_rank (fuel : nat) (c : cfg) (nranks : nat) (main : list act) (orc : list resp) : res :=
   run fuel c (PActs main) (init_st nranks orc) >>= fun s => run fuel c PBarrier s.
+
+(* ---- legality of programs (the hypotheses of RankSafe.v; checked on every replayed scenario) ---- *)
+(* acts a handler or a pre-barrier callback may perform *)
+Definition legal_h (a : act) : bool :=
+  match a with
+  | AAsync _ _ _ | AAsyncRef _ _ | AFunctor _ _ _ _ | ABcast _ _ | AMcast _ _ _ | ALp | ASf _ | ACb _ | AMut => true
+  | _ => false
+  end.
+
+(* main programs: masks are well bracketed; no barrier while a mask is held.
+   Returns the number of masks alive at the end. *)
+Fixpoint legal_main (k : nat) (l : list act) : option nat :=
+  match l with
+  | [] => Some k
+  | a :: r =>
+      match a with
+      | AMon => legal_main (S k) r
+      | AMoff => match k with O => None | S k' => legal_main k' r end
+      | ABar => match k with O => legal_main k r | _ => None end
+      | _ => legal_main k r
+      end
+  end.
+
